@@ -1194,7 +1194,7 @@ func newRunner(name string, f lib.Flags, res *lib.Result, rng *lib.RNG, level in
 		sweeps = 1
 	}
 	if name == "replay-0" {
-		sweeps = 1 << 20
+		sweeps = 4
 	}
 	return &runner{name: name, f: f, res: res, rng: rng, drv: drv, real: newRealSide(root), level: level, serial: serial, sweeps: sweeps, viol: keepBest}, nil
 }
